@@ -185,6 +185,7 @@ def conc_stream(ctx):
         for i in range(n):
             nt = rng.choice([2, 2, 3, 3, 4, 5, 8]) if klass != "reads" else rng.choice([2, 3])
             jobs.append(gen_job(rng, nt, klass))
+    jobs = [j for j in streams.replay_override(ctx, "job", jobs) if "threads" in j]
     with ThreadPoolExecutor(max_workers=8) as ex:
         runs = list(ex.map(run_conc, jobs))
     data = []
